@@ -1,0 +1,46 @@
+//
+//   Verification hook support.  Compiled to nothing unless
+//   BEEBTOOLS_VERIF is defined; even then events are only written
+//   when the environment variable BEEBTOOLS_VERIF_TRACE names a file.
+//
+#ifndef INC_VERIF_TRACE_H
+#define INC_VERIF_TRACE_H 1
+
+#if defined(BEEBTOOLS_VERIF)
+#include <stdio.h>
+#include <stdlib.h>
+
+namespace verif
+{
+  inline FILE* trace_file()
+  {
+    static FILE* f = 0;
+    static bool tried = false;
+    if (!tried)
+      {
+	tried = true;
+	const char* name = getenv("BEEBTOOLS_VERIF_TRACE");
+	if (name && *name)
+	  f = fopen(name, "a");
+      }
+    return f;
+  }
+}  // namespace verif
+
+// One ndjson line per event, flushed at once so that a later crash
+// does not lose it.
+#define VERIF_EVENT(...)				\
+  do {							\
+    FILE* verif_f_ = verif::trace_file();		\
+    if (verif_f_)					\
+      {							\
+	fprintf(verif_f_, __VA_ARGS__);			\
+	fputc('\n', verif_f_);				\
+	fflush(verif_f_);				\
+      }							\
+  } while (0)
+#else
+#define VERIF_EVENT(...) do { } while (0)
+#endif
+
+#endif
